@@ -19,7 +19,11 @@ PROP = {'rule': 'rapid-generated cases: node capacity (1-256 cpu, 1 GiB-4 TiB), 
          'strategy layers on the same node — 0-3 node-pool configs (selectors on pool/tier labels or empty, matching or not, several '
          'matching), the colocation-strategy annotation (partial / junk / absent) and the ratio labels — resolved with '
          'GetNodeColocationStrategy; non-trivial = a node-pool config matches AND an annotation or valid ratio label is present AND a '
-         'node amount is positive. distinct = FNV-64 of the full case.',
+         'node amount is positive. configGate: 1-3 generated colocation-config versions (cluster fields and node-pool entries, '
+         'percent fields in range or out of range: negative / >100, degradeTimeMinutes<1, resourceDiffThreshold<=0, enable omitted) '
+         'delivered as ConfigMap create/update events to the real config handler, node reconciled with the real reconciler after each; '
+         'non-trivial = an offer with an out-of-range value was made and the node advertised amounts afterwards. '
+         'distinct = FNV-64 of the full case.',
  'assumptions': ['a reported NodeMetric status always carries status.nodeMetric together with status.updateTime (what koordlet writes); '
                  'the never-reported case (empty status) is generated separately in batchStale',
                  'pods carry only legal priority/QoS combinations; container limits are never set without a request (API-server '
@@ -42,6 +46,10 @@ PROP = {'rule': 'rapid-generated cases: node capacity (1-256 cpu, 1 GiB-4 TiB), 
                  'strategy layers (documented precedence): cluster strategy < first node-pool config whose selector matches < node '
                  'annotation colocation-strategy (unparsable: ignored) < ratio labels; an override replaces only the fields it sets; '
                  'the annotation never carries enable=false and the mid labels are not combined with node-pool configs',
+                 'configGate does not predict which configuration the validator accepts: it reads the configuration in force back '
+                 'from the cache (cluster strategy, first node-pool entry selecting the node) and judges the amounts on the Node against '
+                 'it: never negative, <= capacity*cap, <= capacity - margin - system usage - prod requests (pods without metrics), mid '
+                 '<= capacity*mid threshold; the controller clock is stepped past the sync interval before every reconcile',
                  'reconcileHistory: a reconcile may follow any step (node events and resyncs trigger it); only the withdrawal clause is '
                  'asserted on the Node object (published amounts may lag a fresh calculation by design: resourceDiffThreshold / '
                  'updateTimeThresholdSeconds); the plugins read the wall clock there, so update times are relative to time.Now(): fresh '
@@ -61,8 +69,8 @@ PROP = {'rule': 'rapid-generated cases: node capacity (1-256 cpu, 1 GiB-4 TiB), 
            {'name': 'reconcile',
             'pkg': 'pkg/slo-controller/noderesource',
             'files': ['C09/c09_reconcile_test.go', 'C09/c09_config_test.go'],
-            'tests': [{'run': 'TestVerifC09ReconcileHistory', 'quick': 600, 'thorough': 3000},
-                      {'run': 'TestVerifC09ConfigGate', 'quick': 600, 'thorough': 3000}]}],
+            'tests': [{'run': 'TestVerifC09ReconcileHistory', 'quick': 500, 'thorough': 3000},
+                      {'run': 'TestVerifC09ConfigGate', 'quick': 500, 'thorough': 3000}]}],
  'manifest': {'technique': 'property-based testing (rapid): generated node/strategy/pod/metric/topology inputs with an exact-rational '
                            'bound oracle and metamorphic monotonicity relations',
               'text': 'Generated-input search over Plugin.Calculate of the batch and mid resource plugins (node path and NUMA-zone path '
